@@ -262,7 +262,7 @@ struct BfSk: Sk {
   ~BfSk() override { s.reset(); mem.reset(); }
   const char* fam() const override { return "bloom"; }
   Sk* clone() const override {   // the library's copy of a wrapping filter is another view of the same caller memory: give the clone its own memory block
-    if (!mem) return new BfSk(S(*s));
+    if (!mem || !s->is_wrapped()) return new BfSk(S(*s));   // wrapping an empty image yields an owning filter
     std::unique_ptr<sim::ExactBuf> m(new sim::ExactBuf(mem->p, mem->n));
     if (s->is_read_only()) { S f(S::wrap(m->p, m->n, A(ARENA))); return new BfSk(std::move(m), std::move(f)); }
     S f(S::writable_wrap(m->p, m->n, A(ARENA))); return new BfSk(std::move(m), std::move(f));
@@ -324,7 +324,8 @@ template<typename T> struct DnSk: Sk {
   Sk* move_out() override { return new DnSk(S(std::move(*s))); }
   void copy_assign(const Sk& o) override { *s = *static_cast<const DnSk&>(o).s; }
   void move_assign(Sk& o) override { *s = std::move(*static_cast<DnSk&>(o).s); }
-  std::vector<T> point(i64 v) const { std::vector<T> p(s->get_dim()); for (size_t i = 0; i < p.size(); i++) p[i] = static_cast<T>((v + static_cast<i64>(i) * 3) % 64) / static_cast<T>(16); return p; }
+  std::vector<T> point(i64 v) const { if (s->get_dim() > 4096) throw std::invalid_argument("harness: dimension of a corrupted image too large to build points for");   // an accepted corrupted image may legitimately describe dim = 2^32-1
+    std::vector<T> p(s->get_dim()); for (size_t i = 0; i < p.size(); i++) p[i] = static_cast<T>((v + static_cast<i64>(i) * 3) % 64) / static_cast<T>(16); return p; }
   void feed(i64 start, i64 count, i64 pattern) override {
     for (i64 j = 0; j < count; j++) { auto p = point(feed_value(start, j, count, pattern)); typename S::Vector pv(p.begin(), p.end(), A(ARENA)); s->update(std::move(pv)); }
   }
